@@ -9,10 +9,74 @@ import (
 	"github.com/blinklabs-io/gouroboros/connection"
 	"github.com/blinklabs-io/gouroboros/protocol"
 	"github.com/blinklabs-io/gouroboros/protocol/chainsync"
+	pcommon "github.com/blinklabs-io/gouroboros/protocol/common"
 )
 
 var Registry = map[string]func(){
 	"Pipelining": Pipelining,
+	"AtTip":      AtTip,
+}
+
+// AtTip: the real sync loop and the real message handler, scheduled cooperatively, against a
+// server that answers each RequestNext either directly (RollBackward) or with AwaitReply
+// first (the client is at the tip) -- a nondeterministic choice per request. Whenever the
+// server looks at the wire, the requests sent and not yet answered by a RollForward/
+// RollBackward are at most max(limit, 1), and only RequestNext was sent.
+func AtTip() {
+	limit, replies := sym.Param("limit"), sym.Param("replies")
+	cfg := chainsync.NewConfig()
+	cfg.PipelineLimit = limit
+	rolled := 0
+	cfg.RollBackwardFunc = func(chainsync.CallbackContext, pcommon.Point, chainsync.Tip) error { rolled++; return nil }
+	c := chainsync.VerifNewClient(&cfg, connection.ConnectionId{LocalAddr: net.Addr(addr{}), RemoteAddr: net.Addr(addr{})})
+	sym.Assume(chainsync.VerifStartSync(c) == nil)
+	bound := limit
+	if bound < 1 {
+		bound = 1
+	}
+	inbox := make(chan protocol.Message, 4)
+	handlerErr := false
+	handler := func() {
+		for m := range inbox {
+			if chainsync.VerifClientHandle(c, m) != nil {
+				handlerErr = true
+			}
+		}
+	}
+	outstanding, answered, awaited, turns := 0, 0, false, 0
+	env := func() bool {
+		turns++
+		for _, m := range protocol.VerifDrainSent(c.Protocol) {
+			sym.Assert(m.Type() == chainsync.MessageTypeRequestNext, "the sync loop only sends RequestNext")
+			outstanding++
+		}
+		sym.Assert(outstanding <= bound, "no more requests are outstanding than the pipeline limit")
+		if answered == replies {
+			if answered >= 0 {
+				close(inbox)
+				answered = -1
+				return true
+			}
+			return false
+		}
+		if answered < 0 {
+			return false
+		}
+		sym.Assert(outstanding >= 1, "a syncing client always has a request outstanding")
+		if !awaited && sym.Bool("await_first_"+string(rune('a'+turns))) {
+			awaited = true // the client is at the tip: AwaitReply, the request stays outstanding
+			inbox <- chainsync.NewMsgAwaitReply()
+			return true
+		}
+		awaited = false
+		outstanding--
+		answered++
+		inbox <- chainsync.NewMsgRollBackward(pcommon.Point{}, chainsync.Tip{})
+		return true
+	}
+	sym.RunGoroutines(env, func() { chainsync.VerifSyncLoop(c) }, handler)
+	sym.Reach("ran")
+	sym.Assert(!handlerErr && rolled == replies, "every reply is handled")
 }
 
 type addr struct{}
